@@ -21,6 +21,7 @@ def main():
     ap.add_argument("--replay", default=None)
     a = ap.parse_args()
     try:
+        os.environ["VERIF_TIER_RUNNING"] = a.tier      # (common.check_proofs: the thorough tier re-checks the compiled proofs with leanchecker)
         mod = importlib.import_module(a.prop.lower())
         if a.replay:
             return mod.replay(a.replay)
